@@ -39,7 +39,8 @@ ASSUMPTIONS = ["the document's own prose defines no id attributes or '#...' link
 RULE = ("Markdown documents with 1-3 independent recipes (```new-recipe) of 1-3 blocks each; sub recipes with single and "
         "multiple outputs, adversarial output names (spaces, punctuation, quotes, < > &, non-ASCII, names made only of "
         "punctuation, embedded scaled numbers {n}, pairs that sanitise to the same id), references with every amount "
-        "form, across blocks, documents with 21-23 independent recipes re-using sub recipe names (prefixes recipe11-, "
+        "form, across blocks, outputs whose names differ only by an embedded number rendered at scale 0 / Fraction(0) and "
+        "with a written {0} (ids compared with the ids of the names as written), documents with 21-23 independent recipes re-using sub recipe names (prefixes recipe11-, "
         "recipe21- ...), references to the second / third output of a multi-output sub recipe with quantities, "
         "proportions and whole amounts next to an inlined single-use sub recipe (the link must land on the list item "
         "of the output NAMED in the source), statements that consist solely of a reference (root-level reference cells, in first and "
@@ -226,6 +227,35 @@ def gen_many_doc(rng: random.Random) -> str:
         lines = [f"{nm} := do(ing{ri})", f"mix({rng.choice(PARTIAL)}{nm}, x{ri})", rng.choice(REST) + nm]
         parts.append(("```new-recipe\n" if ri > 0 else "```recipe\n") + "\n".join(lines) + "\n```\n")
     return "\n".join(parts)
+
+
+def expected_id(prefix: str, parts: List[Any], scale: Any) -> str:
+    """The documented id of an output written as `parts` (strings and numbers) at `scale`, computed without
+    ScaledValueString: numbers times the factor through format_number, sanitised, '-' stripped."""
+    from recipe_grid.number_formatting import format_number
+    # quote() writes the segments separated by one space, which the grammar keeps as part of the name
+    text = " ".join(p if isinstance(p, str) else format_number(p * scale) for p in parts)
+    return prefix + sanitised(text)
+
+
+def gen_zero_doc(rng: random.Random) -> Tuple[str, List[List[Any]], List[Any]]:
+    """Two outputs of one recipe whose names differ only by an embedded scaled number, both referenced twice; to be
+    rendered at scale 0 (and a written {0} at scale 1).  Returns (document, names as parts, scales)."""
+    word = rng.choice(["batch", "tray", "a b", "x<y"])
+    if rng.random() < 0.5:
+        names, scales = [[word + " ", rng.choice((1, 2, 3))], [word]], [0, Fraction(0), 1, 2]
+    else:
+        names, scales = [[word + " ", rng.choice((2, 3))], [word + " ", 0]], [1, 2, Fraction(1, 2)]
+    if rng.random() < 0.3:
+        names.append(["plain"])
+    q = [quote(n) for n in names]
+    if rng.random() < 0.5:
+        lines = [f"{x} := do(ing{i})" for i, x in enumerate(q)]
+    else:
+        lines = [f"{', '.join(q)} := split(ing0)"]
+    lines.append("mix(" + ", ".join("1/2 of the " + x for x in q) + ")")
+    lines.append("fry(" + ", ".join("rest of the " + x for x in q) + ")")
+    return "# Title for 2\n\n```recipe\n" + "\n".join(lines) + "\n```\n", names, scales
 
 
 def gen_redefine_doc(rng: random.Random) -> str:
@@ -445,6 +475,13 @@ def ids_case(inp: Dict[str, Any]) -> Optional[Case]:
     ids, hrefs, tokens = extract(html)
     scaled = [[r.scale(scale) for r in rs] for rs in m.recipes]
     viol, info = oracle(scaled, ids, hrefs, tokens, m.recipes)
+    if inp.get("expect_names") is not None:
+        want_ids = [expected_id("recipe-", [p if isinstance(p, str) else coqio.num_unjson(p) for p in n], scale)
+                    for n in inp["expect_names"]]
+        if [i for i, _ in ids] != want_ids:
+            nv = f"the ids of the page are {[i for i, _ in ids]}, the outputs as written at scale {scale} have {want_ids}"
+            info["other"].append(nv)          # never a known finding
+            viol = nv
     if inp.get("expect") is not None:
         nv = named_target_violation(inp["expect"], hrefs, tokens)
         if nv is not None:
@@ -468,8 +505,10 @@ def ids_case(inp: Dict[str, Any]) -> Optional[Case]:
         tags.append("ids:long-name")
     if inp.get("expect") is not None:
         tags.append("ids:named-nonfirst-output")
+    if scale == 0:
+        tags.append("ids:scale-zero")
     return Case(input={"suite": "ids", "doc": doc, "scale": inp["scale"], "before": inp.get("before"),
-                       "expect": inp.get("expect")}, coq_in=page,
+                       "expect": inp.get("expect"), "expect_names": inp.get("expect_names")}, coq_in=page,
                 coq_out=f"(Ok {out})",
                 impl={"ids": ids, "hrefs": hrefs, "oracle": info}, violation=viol, nontrivial=bool(hrefs), tags=tags)
 
@@ -509,6 +548,20 @@ def suites(tier: str, seed: int) -> List[Suite]:
             seen.add(c.key())
             c.tags = list(c.tags) + ["ids:many-recipes"]
             su.cases.append(c)
+    for _ in range(12 if tier == "quick" else 120):
+        d, names, scs = gen_zero_doc(rng)
+        jn = [[p if isinstance(p, str) else coqio.num_json(p) for p in n] for n in names]
+        for sc in scs:
+            c = ids_case({"doc": d, "scale": coqio.num_json(sc), "expect_names": jn})
+            if c is not None and c.key() not in seen:
+                seen.add(c.key())
+                su.cases.append(c)
+    for d in docs:
+        if "{" in d and d not in HAND_DOCS and rng.random() < 0.5:
+            c = ids_case({"doc": d, "scale": coqio.num_json(rng.choice([0, Fraction(0)]))})
+            if c is not None and c.key() not in seen:
+                seen.add(c.key())
+                su.cases.append(c)
     for d, ex in multiref:
         for sc in rng.sample(SCALES, 2):
             c = ids_case({"doc": d, "scale": coqio.num_json(sc), "expect": ex})
@@ -520,7 +573,8 @@ def suites(tier: str, seed: int) -> List[Suite]:
 
 
 def replay(inp: Any) -> Case:
-    c = ids_case({"doc": inp["doc"], "scale": inp["scale"], "before": inp.get("before"), "expect": inp.get("expect")})
+    c = ids_case({"doc": inp["doc"], "scale": inp["scale"], "before": inp.get("before"), "expect": inp.get("expect"),
+                  "expect_names": inp.get("expect_names")})
     if c is None:
         raise ValueError("document does not compile")
     return c
